@@ -261,11 +261,21 @@ def oracle_column_ensemble(case, ctx):
     ctx.mark_nontrivial(dropped > 0 or k >= 3 or case["label_kind"] != "int")
     if dropped:
         ctx.label("with_dropped_member")
+    by_name = bool(case.get("by_name"))
+    if by_name:
+        # members declared by column NAME; the frame handed to predict_proba may list the same
+        # columns in another order (or with the columns the members own among others)
+        members = [(nm, est, [("dim_%d" % j) for j in cols] if cols else cols) for (nm, est, cols) in members]
+        ctx.label("columns_by_name")
     clf = ColumnEnsembleClassifier(members)
     r = sut(clf.fit, panelpool.to_nested(X3), y)
     if isinstance(r, Raised):
         return [D("fit_raised:cec:%s@%s" % (r.type, r.where), "members %s: %s" % ([(m[0], m[1] if isinstance(m[1], str) else "tsf", m[2]) for m in members], r.msg))]
-    P = sut(clf.predict_proba, panelpool.to_nested(Xa))
+    Xa_frame = panelpool.to_nested(Xa)
+    if by_name and c >= 2:
+        Xa_frame = Xa_frame[list(Xa_frame.columns)[::-1]]
+        ctx.label("columns_reordered_at_predict")
+    P = sut(clf.predict_proba, Xa_frame)
     if isinstance(P, Raised):
         return [D("apply_raised:cec.predict_proba:%s@%s" % (P.type, P.where), P.msg)]
     # recompute from independently fitted members (same seeds, same columns)
@@ -317,7 +327,7 @@ def cec_cases(draw):
                             min_size=1, max_size=4))
     return {"c": c, "members": members, "n_train": draw(st.integers(6, 12)), "n_apply": draw(st.integers(1, 4)),
             "t": draw(st.integers(8, 24)), "n_classes": draw(st.integers(2, 3)),
-            "label_kind": draw(st.sampled_from(["int", "int_gap", "str"])), "seed": draw(st.integers(0, 10 ** 6))}
+            "label_kind": draw(st.sampled_from(["int", "int_gap", "str"])), "seed": draw(st.integers(0, 10 ** 6)), "by_name": draw(st.booleans())}
 
 
 def enum_wf_every_kind(tier):
